@@ -253,6 +253,8 @@ def run(prop, tier, seed):
         groups.append((T, [g.value(T) for _ in range(2)]))
     events = record(groups, {prop})
     events += extra_events(prop, seed, tier)
+    while _LAST_TLC:
+        rep.add_tlc(*_LAST_TLC.pop())
     bad, results, njudged = validate(events, wd)
     for r_ in results:
         rep.add_tlc(r_, "SchemaTrace (TLA+ Draft 2020-12 validator + builder-context state machine over recorded events)")
@@ -367,6 +369,7 @@ def extra_events(prop, seed, tier):
             except Exception as e:  # noqa: BLE001
                 ev.append(["BuildFailed", f"f{name}{ci}", ["hand-written", "forward-ref " + name], [dn, ar], [type(e).__name__, str(e)[:160]]])
     if prop == "C20":
+        ev += default_families(tier)
         from harness.real import Subject
         g = gen.Gen(seed + 17, max_depth=2)
         for bi in range(20 if tier == "quick" else 200):
@@ -390,6 +393,35 @@ def extra_events(prop, seed, tier):
                 if subjects:
                     subjects[0].close()
         ev += config_totality(seed, tier)
+    return ev
+
+
+_LAST_TLC = []
+
+
+def _record_shard(args):
+    """consecutive classes are built in ONE process, one after the other (the builder's module-level state is shared)"""
+    out = []
+    for gid, T in args:
+        out += _record_group((gid, T, [], {"C20"}))
+    return out
+
+
+def default_families(tier):
+    """C20 'total' over MC_C20's defaulted-class families (TLC-enumerated)"""
+    wd = tlc.scratch()
+    r = tlc.run_tlc("MC_C20", workdir=wd, workers=16, timeout=1800)
+    _LAST_TLC.append((r, "MC_C20: DefaultsConform; one class per (type, declaration order, config) with value / None defaults"))
+    classes = sorted((p[1] for p in r.printed if p[0] == "cls"), key=jkey)
+    if tier == "quick":
+        classes = classes[::2] + classes[1::16]
+    work = [(f"d{i}", T) for i, T in enumerate(classes)]
+    shards = [work[k::16] for k in range(16)]
+    ctx = mp.get_context("fork")
+    ev = []
+    with ctx.Pool(16) as pool:
+        for evs in pool.imap(_record_shard, shards):
+            ev += evs
     return ev
 
 
